@@ -1,7 +1,7 @@
 From Coq Require Import Extraction ExtrOcamlBasic NArith ZArith List.
-From Storage Require Import Base.Bytes Ast.AstTable Ast.Visitor Ast.VisitorGen Ast.PublicCfg.
+From Storage Require Import Base.Bytes Ast.AstTable Ast.Visitor Ast.VisitorGen Ast.PublicCfg Ast.ValidateSeq.
 Extraction Language OCaml.
 Definition force_types : nat * N * Z := (O, 0%N, 0%Z).
 Extraction "c20_model.ml" force_types name_bytes
   gen_visit gen_all_syms gen_shaped_b gen_validate gen_table_complete gen_gaps gen_validator_ok gen_kind_names
-  is_public cfg_observe.
+  is_public cfg_observe gen_validate_seq.
